@@ -229,6 +229,33 @@ Survivors(dm, dthr, shape, pairs) ==
          IN {yes \cup X : X \in SUBSET unk}
 
 (***************************************************************************)
+(* The whole procedure as one operator: the set of definitional outcomes   *)
+(* [nP, nR, surv] over all tie orders, from the input alone.  kind is the  *)
+(* input type "SEM" | "UNM" | "MAT".                                       *)
+(***************************************************************************)
+SituationsOf(kind, backend, matcher, mm, thr, shape, pred, ref) ==
+    IF kind = "MAT"
+    THEN {[nP |-> Cardinality(Labels(pred)), nR |-> Cardinality(Labels(ref)), pairs |-> PairsOfMatched(pred, ref)]}
+    ELSE LET pr == IF kind = "SEM" THEN Approximate(backend, shape, pred) ELSE pred
+             rf == IF kind = "SEM" THEN Approximate(backend, shape, ref)  ELSE ref
+             nP == Cardinality(Labels(pr))  nR == Cardinality(Labels(rf))
+         IN IF nP = 0 \/ nR = 0 THEN {[nP |-> nP, nR |-> nR, pairs |-> {}]}
+            ELSE {[nP |-> NPredAfter(pr, lm), nR |-> nR, pairs |-> PairsOfLm(pr, rf, lm)]
+                    : lm \in AllowedLabelMaps(matcher, mm, thr, shape, pr, rf)}
+
+ExpectedOf(kind, backend, matcher, mm, thr, dm, dthr, shape, pred, ref) ==
+    UNION {{[nP |-> s.nP, nR |-> s.nR, surv |-> sv] : sv \in Survivors(dm, dthr, shape, s.pairs)}
+             : s \in SituationsOf(kind, backend, matcher, mm, thr, shape, pred, ref)}
+
+\* what a result reports about an outcome, free of voxel coordinates and label values:
+\* counts and the bag of per-instance score tuples
+SummaryOf(shape, e) ==
+    LET tup(x) == <<IoUSets(x.R, x.P), DiceSets(x.R, x.P), RVDSets(x.P, x.R), ASSDMilli(shape, x.R, x.P)>>
+        tups == {tup(x) : x \in e.surv}
+    IN [nP |-> e.nP, nR |-> e.nR, tp |-> Cardinality(e.surv),
+        bag |-> [t \in tups |-> Cardinality({x \in e.surv : tup(x) = t})]]
+
+(***************************************************************************)
 (* Phase 5 - the result.  Written as *judgements* on a reported result     *)
 (* record res (fields as recorded by the harness, values are value records *)
 (* of EdgeCases.tla) against the definitional quantities.                  *)
@@ -271,8 +298,8 @@ ListMatches(m, xs, scs) ==      \* xs: sequence of value records; scs: sequence 
        ELSE /\ \A i \in 1..Len(xs) : IsRatV(xs[i])
             /\ SameBag([i \in 1..Len(xs) |-> Norm(xs[i].v)], [i \in 1..Len(scs) |-> Norm(scs[i].lo)])
 
-RECURSIVE SetToSeq(_)
-SetToSeq(S) == IF S = {} THEN <<>> ELSE LET x == CHOOSE y \in S : TRUE IN <<x>> \o SetToSeq(S \ {x})
+RECURSIVE SeqOfSet(_)
+SeqOfSet(S) == IF S = {} THEN <<>> ELSE LET x == CHOOSE y \in S : TRUE IN <<x>> \o SeqOfSet(S \ {x})
 
 ScoresOf(m, shape, pairSeq) == [i \in 1..Len(pairSeq) |-> Score(m, shape, pairSeq[i].R, pairSeq[i].P)]
 
@@ -305,13 +332,13 @@ CountsOK(res, nP, nR)        == res.npred = nP /\ res.nref = nR
 TpOK(res, surv)              == res.tp = Cardinality(surv)
 FpFnOK(res, nP, nR, surv)    == res.fp = nP - Cardinality(surv) /\ res.fn = nR - Cardinality(surv)
 ListsOK(res, im, shape, surv) ==
-    LET ps == SetToSeq(surv) IN
+    LET ps == SeqOfSet(surv) IN
     \A m \in im : ListMatches(m, res.lists[m], ScoresOf(m, shape, ps))
 RqOK(res, nP, nR, surv)      == res.rq = RQ(Cardinality(surv), nP, nR)
 
 \* sq_m: with tp > 0 the mean of the expected values; with tp = 0 what the handler prescribes
 SqOK(res, im, shape, h, nP, nR, surv) ==
-    LET tp == Cardinality(surv)  ps == SetToSeq(surv) IN
+    LET tp == Cardinality(surv)  ps == SeqOfSet(surv) IN
     \A m \in im :
         IF tp = 0 THEN SameValue(res.sq[m], Prescribed(h, m, Scenario(nP, nR)))
         ELSE IF res.sq[m].k = "skip" THEN TRUE
@@ -324,7 +351,7 @@ SqOK(res, im, shape, h, nP, nR, surv) ==
 
 \* sq_m_std: reported as the *variance* (std squared, exact rational) for exact metrics
 StdOK(res, im, shape, h, surv) ==
-    LET tp == Cardinality(surv)  ps == SetToSeq(surv) IN
+    LET tp == Cardinality(surv)  ps == SeqOfSet(surv) IN
     \A m \in im :
         IF tp = 0 THEN SameValue(res.std[m], EmptyStd(h))
         ELSE IF res.std[m].k = "skip" \/ m = "ASSD" THEN TRUE
